@@ -192,4 +192,26 @@ PROPS = {
                        "canonical name order (CBMC does not terminate on 12-octet names within the budget), CharStr, canonical "
                        "ordering of record data per type versus canonical wire form, Record::canonical_cmp.",
     },
+    "C10": {
+        "level": "other",
+        "units": ["xfr"],
+        "kani": [],
+        "replays": [
+            {"bin": "d3_xfr_wrong_qtype", "crate": "replay_net", "finding": "D3"},
+        ],
+        "explanation": "contracts on the transfer-stream state machine (real text of net/xfr/protocol/interpreter.rs, message and record "
+                       "types reduced to prelude models): XfrResponseInterpreter::check_response accepts exactly the RFC 5936 section "
+                       "2.2.1 header predicate; Inner::new is total (no unreachable!()) and starts the processor in the right mode; "
+                       "RecordProcessor::process_record equals one step of the RFC 5936/1995 stream automaton xfr_step (opening SOA "
+                       "required, AXFR ends on a copy of the opening SOA, DeleteAllRecords exactly once before the first AXFR update, "
+                       "IXFR delete/add phases toggle exactly on SOA records, fallback to AXFR when the second record is not a SOA, "
+                       "nothing accepted after the end), with stream-level consequences as lemmas over the step function.",
+        "not_covered": "Reconstruction fidelity end to end (zone walk/diff, batching into messages, applying updates to the zone tree, "
+                       "atomic visibility), XfrZoneUpdateIterator::next (tracing macros, Option::transpose), TSIG on streams, the "
+                       "server side (batcher, responder). Message/record/SOA types are prelude models, not the real generic types.",
+        "assumptions": [
+            "Message<Bytes>, ParsedRecord, ZoneRecordData, Soa, Rtype, Opcode are reduced prelude models (arbitrary header fields, question type and first answer record)",
+            "rr_count < usize::MAX (machine arithmetic: the record counter cannot overflow in practice)",
+        ],
+    },
 }
